@@ -1,11 +1,33 @@
 #!/bin/bash
-# Offline setup after a fresh restore: build the Lean project (theorems, drivers) and the Go harness.
-set -e
+# Offline setup after a fresh restore: regenerate tables, build the Lean targets (theorems, drivers) and
+# the Go harness of every claimed property. Failures are reported but do not stop the setup: each check
+# rebuilds what it needs itself and reports a broken build as CHECK-ERROR / broken obligation.
 cd "$(dirname "$0")"
 export GOFLAGS=-mod=mod GOPROXY=off GOSUMDB=off GOTOOLCHAIN=local
 mkdir -p .build evidence replays
-(cd harness && go build -o ../.build/extract ./cmd/extract)
-./.build/extract -repo /repo -out lean/Generated/Tables.lean -facts .build/facts.json
-(cd lean && lake build && for d in $(grep -o 'name = "drv_[a-z0-9_]*"' lakefile.toml | cut -d'"' -f2); do r=$(grep -A1 "name = \"$d\"" lakefile.toml | grep root | cut -d'"' -f2 | tr . /); if [ -f "$r.lean" ]; then lake build $d; fi; done)
-for d in harness/cmd/*/; do n=$(basename $d); [ "$n" = extract ] && continue; (cd harness && go build -tags verif -o ../.build/$n ./cmd/$n); done
+(cd harness && go build -o ../.build/extract ./cmd/extract) || echo "setup: extractor build failed"
+./.build/extract -repo /repo -out lean/Generated/Tables.lean -facts .build/facts.json || echo "setup: extractor failed"
+python3 - <<'PY'
+import json, os, subprocess
+root = os.getcwd()
+man = json.load(open("MANIFEST.json"))
+env = dict(os.environ)
+for c in man["checks"]:
+    pid = c["property_id"]
+    cfg = json.load(open(f"checks.d/{pid}.json"))
+    mods = cfg.get("props_modules") or [cfg.get("props_module", pid)]
+    units = cfg.get("units") or [{"driver": cfg.get("driver"), "harness": cfg.get("harness"), "race": cfg.get("race", False)}]
+    targets = [f"Props.{m}" for m in mods] + ["Audit.Common"] + sorted({u["driver"] for u in units if u.get("driver")})
+    r = subprocess.run(["lake", "build"] + targets, cwd="lean", stdout=subprocess.PIPE, stderr=subprocess.STDOUT, text=True)
+    print(f"setup: lean {pid}: {'ok' if r.returncode == 0 else 'FAILED'}")
+    if r.returncode != 0:
+        print(r.stdout[-1500:])
+    for u in units:
+        if u.get("harness"):
+            cmd = ["go", "build", "-tags", "verif"] + (["-race"] if u.get("race") else []) + ["-o", f"../.build/{u['harness']}", f"./cmd/{u['harness']}"]
+            r = subprocess.run(cmd, cwd="harness", stdout=subprocess.PIPE, stderr=subprocess.STDOUT, text=True, env=env)
+            print(f"setup: go {pid}/{u['harness']}: {'ok' if r.returncode == 0 else 'FAILED'}")
+            if r.returncode != 0:
+                print(r.stdout[-1500:])
+PY
 echo setup-ok
